@@ -234,9 +234,14 @@ class EventManager(Runnable):
         # user supplied events
         if self._queue:
             log.debug("User supplied events")
-            for (event, from_walk) in self._queue:
+            # events another thread queues meanwhile are handled too, or stay queued: only what was actually
+            # processed is removed (a reset after the loop wiped whatever arrived between the loop's end and the reset)
+            done = 0
+            while done < len(self._queue):
+                (event, from_walk) = self._queue[done]
                 self._process_event(event, from_walk=from_walk)
-            self._queue = []
+                done += 1
+            del self._queue[:done]
 
         # regular events
         for event in self.provider.events():
